@@ -24,7 +24,7 @@ from pathcond import conditions_to, fact_str, let_env, prune_vacuous
 TITLE = "Curve tables and thresholds"
 LEVEL_TEXT = (
     "table/doc agreement, prime constants, threshold inequalities (decided for every k by integer arithmetic on the extracted"
-    " constants) and the curve-name parser are read from the source and decided completely."
+    " constants) and the curve-name parser are read from the source and decided completely; both instantiation visitors and the less-than pass are evaluated on table worlds; no pass keeps process-wide state."
 )
 NOT_DECIDED = "that constant propagation delivers the size argument n (C06)."
 TRUSTED = ["syn parser", "frozen reference primes and Circomlib spelling map (DESIGN App. C)", "markdown table reader"]
